@@ -459,3 +459,109 @@ def gen_edit(rng, spec, cfg, i, mix=None):
             op["i"] = i
             return op
     return {"op": "noop", "obj": "sys", "attr": "usage_patterns", "i": i}
+
+
+# ---------------------------------------------------------------------------------------------------
+# C16: link-operation histories, including no-op, duplicate, absent and out-of-range forms
+
+def gen_list_op_wild(rng, spec, cfg, closure_names, i):
+    """Any list-mutating call, with present / absent / duplicate / no-op / out-of-range arguments."""
+    cands = list_cands(spec)
+    if not cands:
+        return None
+    name = pick_obj(rng, spec, cands, closure_names, 0.9)
+    attr, elt_classes = LIST_ATTRS[spec["objs"][name]["cls"]]
+    cur = list(spec["objs"][name]["attrs"][attr][1])
+    pool = by_cls(spec, elt_classes)
+    absent = [p for p in pool if p not in cur]
+    m = rng.choice(["append", "insert", "extend", "iadd", "imul", "pop", "remove", "delitem", "setitem", "clear",
+                    "extend", "iadd", "imul", "remove", "pop"])
+    op = {"op": "list", "obj": name, "attr": attr, "method": m}
+    keep_one = attr == "devices"
+    if m == "append":
+        op["args"] = [rng.choice(cur if cur and rng.random() < 0.3 else pool)]
+    elif m == "insert":
+        op["args"] = [rng.choice([0, len(cur), rng.randint(0, len(cur)), -1, len(cur) + 5]),
+                      rng.choice(cur if cur and rng.random() < 0.3 else pool)]
+    elif m in ("extend", "iadd"):
+        n = rng.choice([0, 0, 1, 2])
+        op["args"] = [[rng.choice(pool) for _ in range(n)]]
+    elif m == "imul":
+        op["args"] = [rng.choice([1, 1, 2, 3] if keep_one else [0, 1, 1, 2, 3])]
+    elif m == "pop":
+        choices = [[]]
+        if cur:
+            choices += [[rng.randrange(len(cur))], [-1]]
+        choices += [[len(cur) + 2]]
+        op["args"] = rng.choice(choices)
+        if keep_one and len(cur) <= 1 and op["args"] != [len(cur) + 2]:
+            op["args"] = [len(cur) + 2]
+    elif m == "remove":
+        if cur and rng.random() < 0.7 and not (keep_one and len(cur) <= 1):
+            op["args"] = [rng.choice(cur)]
+        elif absent:
+            op["args"] = [rng.choice(absent)]
+        else:
+            return None
+        op["by"] = rng.choice(["wrapper", "object"])
+    elif m == "delitem":
+        if cur and rng.random() < 0.7 and not (keep_one and len(cur) <= 1):
+            op["args"] = [rng.choice([rng.randrange(len(cur)), -1])]
+        else:
+            op["args"] = [len(cur) + 1]
+    elif m == "setitem":
+        if cur and rng.random() < 0.8:
+            idx = rng.randrange(len(cur))
+            op["args"] = [idx, cur[idx] if rng.random() < 0.3 else rng.choice(pool)]
+        else:
+            op["args"] = [len(cur) + 1, rng.choice(pool)]
+    elif m == "clear":
+        if keep_one:
+            return None
+    return op
+
+
+def gen_assign_equal(rng, spec, cfg, closure_names, i):
+    """Assign an equal list, the very same list object, or the same scalar target."""
+    cands = [(n, a) for n in spec["order"] for a, v in spec["objs"][n]["attrs"].items()
+             if v is not None and v[0] in ("refs", "ref") and spec["objs"][n]["cls"] != "System"]
+    if not cands:
+        return None
+    name, attr = rng.choice(cands)
+    v = spec["objs"][name]["attrs"][attr]
+    if v[0] == "refs" and rng.random() < 0.5:
+        return {"op": "assign_self", "obj": name, "attr": attr}
+    return {"op": "noop", "obj": name, "attr": attr}
+
+
+def gen_delete(rng, spec, cfg, closure_names, i):
+    """self_delete of a referenced object (must be refused) or of an unreferenced one (must succeed)."""
+    cands = [n for n in spec["order"] if spec["objs"][n]["cls"] not in ("System",)]
+    if not cands:
+        return None
+    referenced = [n for n in cands if S.users_of(spec, n)]
+    free = [n for n in cands if not S.users_of(spec, n) and spec["objs"][n]["cls"] != "UsagePattern"]
+    if free and rng.random() < 0.5:
+        return {"op": "delete", "obj": rng.choice(free)}
+    if referenced:
+        return {"op": "delete", "obj": rng.choice(referenced), "expect": "refused"}
+    return None
+
+
+def gen_second_system(rng, spec, cfg, closure_names, i):
+    ups = list(spec["objs"]["sys"]["attrs"]["usage_patterns"][1])
+    if not ups:
+        return None
+    mode = rng.choice(["same_up", "new_up_shared_objects"])
+    if mode == "same_up":
+        return {"op": "second_system", "name": f"sys_n{i}", "ups": [rng.choice(ups)]}
+    src = spec["objs"][rng.choice(ups)]["attrs"]
+    a = {k: (list(v) if k != "devices" else ["refs", list(v[1])]) for k, v in src.items()}
+    return {"op": "second_system", "name": f"sys_n{i}", "new_up": {"name": f"up_x{i}", "attrs": a}}
+
+
+C16_MIX = [
+    (gen_list_op_wild, 40), (gen_list_assign, 10), (gen_assign_equal, 8), (gen_link, 12), (gen_new_storage, 2),
+    (gen_add_job, 5), (gen_add_step, 4), (gen_add_up, 4), (gen_remove_up, 3), (gen_permute_ups, 2),
+    (gen_delete, 6), (gen_second_system, 4),
+]
